@@ -227,7 +227,8 @@ Proof. repeat split; vm_compute; reflexivity. Qed.
 (** const types are [usize] (ChalkIr lowering) *)
 Fixpoint consts_usize (t : tm) : bool :=
   match t with
-  | Var _ _ _ | CVar _ _ _ => true
+  | Var _ _ _ => true
+  | CVar _ _ c => tm_eqb c usize_ty
   | Node h cs =>
       if const_head h then match cs with [c] => tm_eqb c usize_ty | _ => false end
       else forallb consts_usize cs
